@@ -180,6 +180,18 @@ def magnify(rng, spec, x0, p=0.2):
             if s[j] != 0 and np.isfinite(spec["xl"][j]) and spec["xu"][j] > spec["xl"][j] and rng.random() < 0.4:
                 spec["xu"][j] = spec["xl"][j] + float(rng.choice([0.3e-8, 0.7e-8])) * abs(spec["xl"][j])
         x0 = np.clip(x0 + s, spec["xl"], spec["xu"])
+        if spec.get("family") in ("qp", "zero-cons") and rng.random() < 0.6:
+            # the unconstrained minimiser lies just inside some bounds: a few 1e-10..1e-9 |x| away (many absolute
+            # activity tolerances, but a tiny distance relative to the size of the variable)
+            xs = x0.copy()
+            for j in range(n):
+                d_ = float(rng.choice([1e-10, 1e-9, 3e-9]))
+                if s[j] != 0 and np.isfinite(spec["xl"][j]) and rng.random() < 0.5:
+                    xs[j] = spec["xl"][j] + d_ * abs(spec["xl"][j])
+                elif s[j] != 0 and np.isfinite(spec["xu"][j]) and rng.random() < 0.5:
+                    xs[j] = spec["xu"][j] - d_ * abs(spec["xu"][j])
+            xs = np.clip(xs, spec["xl"], spec["xu"])
+            spec["q"] = -(Q @ xs)
         tags.append("far")
     if tags:
         spec["magnified"] = sorted(set(tags))
